@@ -809,6 +809,21 @@ def check_model(m, inputs, compile_fn, starts=()):
         return ('pretty-raises', type(e).__name__)
     if not isinstance(p1, str):
         return ('pretty-raises', 'not-a-str')
+    # pretty() is a function of the model: other renderings of the same object in between (the lean form, str, repr)
+    # change neither it nor each other
+    try:
+        lean1 = guarded(lambda: m.pretty_lean())
+        guarded(lambda: (str(m), repr(m.rules[0]) if m.rules else None))
+        p1b = guarded(lambda: m.pretty())
+        lean2 = guarded(lambda: m.pretty_lean())
+    except Timeout:
+        return ('skip', 'timeout:pretty-again')
+    except Exception as e:
+        return ('pretty-raises', 'again:' + type(e).__name__)
+    if p1b != p1:
+        return ('pretty-depends-on-history', 'full-after-lean')
+    if lean2 != lean1:
+        return ('pretty-depends-on-history', 'lean-after-full')
     try:
         m2 = guarded(lambda: compile_fn(p1))
     except Timeout:
